@@ -36,9 +36,10 @@ def point_inputs(p):
         s = rat(p["s"])
         es, el = E, E * ratio[0] / ratio[1]
         pw = ratio[2] / ratio[3]            # (E_L/E_S)^(2/3), rational
+        nul = rat(p["nuL"])
         t = math.sqrt(R * depth) * pw * (1 - .22 * nu ** 2) \
-            / (1 - 1.92 * nu ** 2) / s ** 2
-        par = dict(E_S=es, E_L=el, R=R, nu_S=nu, nu_L=nu, t=t)
+            / (1 - 1.92 * nul ** 2) / s ** 2
+        par = dict(E_S=es, E_L=el, R=R, nu_S=nu, nu_L=nul, t=t)
         factor = U ** 2
     else:
         depth = p["d"] ** 2 * U
@@ -97,11 +98,24 @@ def run(ctx):
                 got_shift = md.model(params, delta)
                 want_shift = md.module.model_func(delta.copy(), **pfull)
                 got_rev = md.model(params, d0[::-1].copy())[::-1]
+                # the formulas are point-wise: an abscissa that goes in and
+                # out of contact (approach and retract in one array, a noisy
+                # tip position) gets the same value at every point
+                dz = np.array([cp + 3 * U, cp - depth, cp + U, cp - depth,
+                               cp, cp + 3 * U], dtype=float)
+                got_zz = np.asarray(md.model(params, dz.copy()),
+                                    float)[[0, 2, 4, 1]]
+                got_zzf = np.asarray(md.module.model_func(dz.copy(),
+                                                          **pfull),
+                                     float)[[0, 2, 4, 3]]
             nval += 1
             per_model[m] = per_model.get(m, 0) + 1
             for name, got, ref in (("model_func", got_func, want),
                                    ("model", got_wrap, want),
-                                   ("model_reversed", got_rev, want)):
+                                   ("model_reversed", got_rev, want),
+                                   ("model_in_and_out", got_zz, want),
+                                   ("model_func_in_and_out", got_zzf,
+                                    want)):
                 got = np.asarray(got, float)
                 # not in contact: the baseline EXACTLY
                 if not np.array_equal(got[:3], ref[:3]):
@@ -178,7 +192,7 @@ def run(ctx):
 
 
 def fmt(p):
-    return (f"E={p['E']},nu={p['nu']},r={p['r']},d={p['d']},"
+    return (f"E={p['E']},nu={p['nu']},nuL={p.get('nuL')},r={p['r']},d={p['d']},"
             f"alpha={p['alpha']},ratio={p['ratio'][:2]},s={p['s']}")
 
 
